@@ -181,7 +181,8 @@ var zeroExceptions = map[string]string{
 	"IsPadded": "true",
 	"Kind":     "any-const",
 	"ID":       "any-const",
-	"Addr":     "any",
+	// Stack.Addr documents "0x0" for a zero Stack; Condition.Addr answers the empty string
+	"Stack.Addr": "any",
 }
 
 func (c *Ctx) ruleZeroResults() {
@@ -223,6 +224,9 @@ func (c *Ctx) ruleZeroResults() {
 
 func (c *Ctx) zeroResult(fa *FnAnalysis, st *State, m APIMethod, k int, rv ssa.Value) string {
 	exc := zeroExceptions[m.Name]
+	if e, ok := zeroExceptions[m.Recv+"."+m.Name]; ok {
+		exc = e
+	}
 	t := fa.term(st, rv)
 	typ := rv.Type()
 	if exc == "any" {
